@@ -124,7 +124,7 @@ func c06(c *wk.Ctx) {
 	}()
 	connSeq := 0
 	n := 0
-	c.Cases("plan", c.Pick(2000, 60000), func(i int, rng *rand.Rand) {
+	c.Cases("plan", c.Pick(2000, 400000), func(i int, rng *rand.Rand) {
 		if w == nil || n%40 == 0 {
 			if err := mkWorld(); err != nil {
 				c.Inconclusive("plan", i, "world: "+err.Error())
